@@ -403,7 +403,7 @@ var needsLog = map[string]bool{"close": true, "pub": true, "pubbig": true, "next
 	"cons": true, "consk": true, "get": true, "getk": true, "gett": true, "offk": true, "offt": true, "del": true,
 	"delm": true, "size": true, "findo": true, "findc": true, "finds": true, "finda": true, "fupd": true, "fdel": true,
 	"trimo": true, "trimc": true, "trims": true, "trima": true, "cupd": true, "cdel": true, "trim1o": true,
-	"trim1c": true, "trim1s": true, "trim1a": true, "c1upd": true, "c1del": true, "backup": true, "probe": true, "compact": true}
+	"trim1c": true, "trim1s": true, "trim1a": true, "c1upd": true, "c1del": true, "backup": true, "probe": true, "compact": true, "delmb": true, "trimob": true}
 
 func step(st *hstate, f []string) []string {
 	l := st.log
@@ -517,6 +517,31 @@ func step(st *hstate, f []string) []string {
 	case "delm":
 		sv := segVers(st.dir)
 		ms, sz, err := klevdb.DeleteMulti(ctx, l, parseOffsets(f[1]), noBackoff)
+		if err != nil {
+			return []string{fmt.Sprintf("err %s %d %s%s", errClass(err), sz, versOf(sv, ms), fmtMsgs(ms))}
+		}
+		return []string{fmt.Sprintf("ok %d %s%s", sz, versOf(sv, ms), fmtMsgs(ms))}
+	case "delmb", "trimob":
+		// DeleteMulti / TrimByOffsetMulti with a backoff function that succeeds <bk> times and then fails (a cancelled
+		// context in DeleteMultiWithWait): what the passes made so far removed must be what is returned with the error
+		sv := segVers(st.dir)
+		bk := int(atoi(f[1]))
+		calls := 0
+		backoff := func(context.Context) error {
+			calls++
+			if calls > bk {
+				return fmt.Errorf("backoff gave up") // any error of the caller's backoff function, e.g. a cancelled context
+			}
+			return nil
+		}
+		var ms []klevdb.Message
+		var sz int64
+		var err error
+		if f[0] == "delmb" {
+			ms, sz, err = klevdb.DeleteMulti(ctx, l, parseOffsets(f[2]), backoff)
+		} else {
+			ms, sz, err = klevdb.TrimByOffsetMulti(ctx, l, atoi(f[2]), backoff)
+		}
 		if err != nil {
 			return []string{fmt.Sprintf("err %s %d %s%s", errClass(err), sz, versOf(sv, ms), fmtMsgs(ms))}
 		}
